@@ -156,7 +156,7 @@ HOSTILE_STRINGS = ["sNaN", "-sNaN", "NaN", "1/0", "1e999", "nan", "inf", "-inf",
 # the case contains that scalar)
 HOSTILE_BY_TAG = {
     "pattern": ["a{4294967296}", "x{,99999999999999999999}", "(?<=a+)b", "\\8", "(?P<n>a)(?P<n>b)", "[z-a]", "(?P=x)", "\\", "(", "a**",
-                "(?z)", "(?i", "\\N{nope}", "[[:alpha:]]", "(?P<1>a)"],
+                "(?z)", "(?i", "\\N{nope}", "[[:alpha:]]", "(?P<1>a)", "(?a)(?u)x", "(?L)x", "(?au)x", "(?a:(?u:x))"],
     "date": ["2020-02-30", "2020-13-01", "0000-01-01", "9999-12-31", "10000-01-01", "2020-1-1", "20200101", "2020-W01-1", "２０２０-01-01",
              "2020-01-01T00:00:00", " 2020-01-01", "2020-01-01\n", "-001-01-01"],
     "time": ["24:00:00", "23:60:00", "23:59:60", "1:2:3", "12:00:00+25:00", "12:00:00.1234567", "120000", "12:00:00Z", "12:00:00+00:00:00.5"],
